@@ -2,15 +2,15 @@
 from .framework import Failure
 from .sessioncheck import SessionCheck
 
-SINGLETON = {0: True, 1: True, 2: True, 3: True, 4: True, 5: False}
+SINGLETON = {0: True, 1: True, 2: True, 3: True, 4: True, 5: False, 6: False}
 
 
 class C10(SessionCheck):
     pid = "C10"
     inst_kwargs = dict(allow_empty_jobs=True)
     gen_kwargs = dict(p_invalid=0.1, p_query=0.1, p_reset=0.05, p_snapshot=1.0, p_obs=0.25,
-                      start_observers_choices=[0, 1, 2, 3, 4, 5, 5], max_events=70, p_cog=0.45,
-                      obs_kinds=(0, 1, 2, 3, 4, 5, 5, 5))
+                      start_observers_choices=[0, 1, 2, 3, 4, 5, 5, 6, 6], max_events=70, p_cog=0.45,
+                      obs_kinds=(0, 1, 2, 3, 4, 5, 5, 6, 6, 6))
     assumptions = ["valid instance: durations >= 0",
                    "observer objects are identified by creation order; a custom recording observer class (harness side) "
                    "records what the dispatcher shows at the moment of each notification"]
